@@ -176,9 +176,14 @@ def read_store(path: str):
             return "bad", entries
         if v.get("children"):
             return "unknown", entries          # not produced here; the gnode translation below does not carry children
-        entries.append({"id": nid, "type": ntype, "pv": v["protocol_version"], "sn": v.get("sketch_name") or "",
-                        "sv": v.get("sketch_version") or "", "bat": v.get("battery_level", 0), "hb": v.get("heartbeat", 0),
-                        "sleeping": bool(v.get("sleeping", False))})
+        e = {"id": nid, "type": ntype, "pv": v["protocol_version"], "sn": v.get("sketch_name") or "",
+             "sv": v.get("sketch_version") or "", "bat": v.get("battery_level", 0), "hb": v.get("heartbeat", 0),
+             "sleeping": bool(v.get("sleeping", False))}
+        if type(e["bat"]) is not int or type(e["hb"]) is not int or not isinstance(e["sn"], str) or not isinstance(e["sv"], str):
+            # (the file may be one the library's own save wrote from whatever its registry held: an entry the gnode
+            # translation cannot carry is not a crash of the harness - the life is judged by the oracle from there)
+            return "unknown", entries
+        entries.append(e)
     return "ok", entries
 
 
@@ -461,7 +466,7 @@ def _describe(life: Life, obs, upto: int) -> list[str]:
         end = o.get("ended")
         out.append(f"{i}: {what} -> {o['out']}" + (f" writes={wr}" if wr else "") + (
             f" [session ended: body left by {end['left_by'] or 'its end'}, __aexit__ -> {end['exit_out']}]" if end else "")
-            + f" registry={sorted(o['after'])}")
+            + f" registry={lib.key_sorted(o['after'])}")
     return out
 
 
@@ -507,12 +512,13 @@ def judge(corr: Corr, life: Life, obs) -> bool:
 
         def case():
             return {"life": life.prefix(i + 1).to_json(), "step": i + 1, "outcome": o["out"],
-                    "writes": [list(w) for w in o["writes"]], "registry_keys": sorted(before),
-                    "handed_out_earlier": list(handed), "ever_registered": sorted(ever),
+                    "writes": [list(w) for w in o["writes"]], "registry_keys": lib.key_sorted(before),
+                    "handed_out_earlier": list(handed), "ever_registered": lib.key_sorted(ever),
                     "trace": _describe(life, obs, i + 1)}
 
         resp = [w for w in o["writes"] if w[0].split(";")[2:5] == ["3", "0", "4"]]
-        full = bool(before) and max(before) >= 254
+        # (registry keys are whatever the real registry holds: keys that are not numbers do not make the registry full)
+        full = any(type(x) is int and x >= 254 for x in before)
         failed_query = any(not w[1] for w in o["writes"])   # the version query after the error may itself fail
         if o["out"] == "err tooManyNodes" or (full and o["out"] in ("err transportFailed", "foreign CancelledError") and failed_query):
             if resp or after != before:
@@ -924,7 +930,7 @@ def run(corr: Corr, ctx) -> None:
             nt = lacks or (is_req and (loaded_less or restarted)) or bool(o.get("ended") and o["ended"]["left_by"])
             key = ("life", life.version, op[0], str(op[1:3]), tuple(o["before"]), loaded_less, restarted,
                    json.dumps(o.get("ended"), sort_keys=True))
-            corr.case(hash(key), nt, {"life-op": list(op), "registry_before": sorted(o["before"]), "outcome": o["out"],
+            corr.case(hash(key), nt, {"life-op": list(op), "registry_before": lib.key_sorted(o["before"]), "outcome": o["out"],
                                       "writes": [w[0] for w in o["writes"]]} if nt and op[0] == "recv" else None)
     corr.count("lives", len(lives))
     if ctx.model_ok:
